@@ -19,6 +19,7 @@
 //	L (P{ cfg* } | a | x<id> | v<id>:<regexhex> | q)*   handler/listener history with goroutine accounting
 //	I cfg* | u:<urlhex> rs:<n> len:<n> b:<seed> ch:<0|1>   proxy on a shaped listener, raw client
 //	K cfg* | q:<urlhex>:<rs>:<len>:<seed>+   several requests on ONE keep-alive connection through the proxy
+//	X cfg* | u:<urlhex> f:<urlhex> d:<ms>   a halt in progress x a configuration POST x an unrelated new connection
 //	R cfg* | n:<bytes> c:<conns>     rate: n body bytes through a "0-" throttle; elapsed lower bound
 //
 // OUT tokens are described next to the code that emits them.
@@ -1012,6 +1013,83 @@ func (o *multiOrigin) RoundTrip(req *http.Request) (*http.Response, error) {
 	return (&originRT{total: total}).RoundTrip(req)
 }
 
+// ------------------------------------------------------------------ X
+
+// runHaltInterleave: X cfg* | u:<matching url hex> f:<other url hex> d:<halt ms>
+// A halt in progress on one connection x a configuration POST during it x an unrelated
+// exchange on a NEW connection during it.  Connection A asks for the matching URL (the
+// configuration has a halt of d ms near the start of the body); 150 ms later, while A
+// sits in its halt, the same configuration is POSTed to the handler and, 30 ms after
+// that, connection B is opened and asks for a URL that matches no shape.
+// OUT: st rx, post<us>:<code>, fast<us>:<ok|err>:<bytes>, a<ok|err>:<bytes> (A's whole response).
+func runHaltInterleave(in []string) (out []string) {
+	defer func() {
+		if r := recover(); r != nil {
+			out = append(out, "PANIC")
+		}
+	}()
+	cfgToks, rest := splitBar(in)
+	p := kv(rest)
+	body, regs := buildJSON(cfgToks)
+	l, err := net.Listen("tcp", "127.0.0.1:0")
+	if err != nil {
+		return []string{"listen-failed"}
+	}
+	tsl := trafficshape.NewListener(l)
+	h := trafficshape.NewHandler(tsl)
+	out = append(out, fmt.Sprintf("st%d", post(h, body)), rxBits(regs))
+	px := martian.NewProxy()
+	px.SetRoundTripper(&originRT{total: bodyBytes(7, 300)})
+	px.SetTimeout(10 * time.Second)
+	go px.Serve(tsl)
+	defer func() {
+		px.Close()
+		tsl.Close()
+	}()
+	get := func(url string) (int, error) {
+		c, err := net.Dial("tcp", l.Addr().String())
+		if err != nil {
+			return 0, err
+		}
+		defer c.Close()
+		req, _ := http.NewRequest("GET", url, nil)
+		req.Header.Set("Connection", "close")
+		if err := req.WriteProxy(c); err != nil {
+			return 0, err
+		}
+		c.SetReadDeadline(time.Now().Add(8 * time.Second))
+		b, err := io.ReadAll(c)
+		return len(b), err
+	}
+	type res struct {
+		n   int
+		err error
+		el  time.Duration
+	}
+	ac := make(chan res, 1)
+	go func() {
+		t0 := time.Now()
+		n, err := get(string(hx.MustUnHex(p["u"])))
+		ac <- res{n, err, time.Since(t0)}
+	}()
+	time.Sleep(150 * time.Millisecond) // A is in its halt now
+	pc := make(chan res, 1)
+	go func() {
+		t0 := time.Now()
+		code := post(h, body)
+		pc <- res{code, nil, time.Since(t0)}
+	}()
+	time.Sleep(30 * time.Millisecond)
+	t0 := time.Now()
+	fn, ferr := get(string(hx.MustUnHex(p["f"])))
+	fel := time.Since(t0)
+	pr := <-pc
+	ar := <-ac
+	out = append(out, fmt.Sprintf("post%d:%d", us(pr.el), pr.n), fmt.Sprintf("fast%d:%s:%d", us(fel), errTok(ferr), fn),
+		fmt.Sprintf("a%d:%s:%d", us(ar.el), errTok(ar.err), ar.n))
+	return out
+}
+
 // ------------------------------------------------------------------ R
 
 // runRate pushes n body bytes through the shaped Write path under a throttle
@@ -1107,6 +1185,8 @@ func runCase(in []string) []string {
 		return runRate(in[1:])
 	case "K":
 		return runKeepAlive(in[1:])
+	case "X":
+		return runHaltInterleave(in[1:])
 	}
 	return []string{"badkind"}
 }
